@@ -66,6 +66,10 @@ func protoFor(k int) string {
 	}
 	return t
 }
+func renderOptions(opts []httphead.Option) string {
+	return renderHS(ws.Handshake{Extensions: opts})
+}
+
 func extFor(k int) string {
 	return fmt.Sprintf("ext-%c%c; p%d=v%d; flag%d", 'a'+k%26, 'a'+(k/26)%26, k%10, (k/3)%10, k%7)
 }
@@ -356,14 +360,28 @@ func subDialer() mon.Sub {
 		Do: func(c *mon.C) {
 			var hs []held
 			n := 2 + c.Rng.Intn(20)
+			longLived := c.I%2 == 1
+			var sharedOffer []httphead.Option
+			var sharedWant string
 			u, _ := url.ParseRequestURI("ws://alias.example/d")
 			for i := 0; i < n; i++ {
 				c.Count(1)
 				k := c.Rng.Intn(10000)
 				offerText := extFor(k)
 				offer, _ := httphead.ParseOptions([]byte(offerText), nil)
-				d := ws.Dialer{Protocols: []string{"nope.v0", protoFor(k)}, Extensions: offer, ReadBufferSize: []int{0, 256, 512}[k%3]}
 				name := string(offer[0].Name)
+				if longLived {
+					// ONE pre-configured Dialer for every connection of the case (a reconnect loop, a client pool): its
+					// offer list is the APPLICATION's slice; each server accepts another of the three offers, with its
+					// own parameters
+					if sharedOffer == nil {
+						sharedOffer, _ = httphead.ParseOptions([]byte(extFor(k)+", "+extFor(k+1)+", "+extFor(k+2)), nil)
+						sharedWant = renderOptions(sharedOffer)
+					}
+					offer = sharedOffer
+					name = string(offer[k%len(offer)].Name)
+				}
+				d := ws.Dialer{Protocols: []string{"nope.v0", protoFor(k)}, Extensions: offer, ReadBufferSize: []int{0, 256, 512}[k%3]}
 				respExt := fmt.Sprintf("%s; srv%d=%d; done", name, k%9, k%13)
 				trail := bytes.Repeat([]byte{byte('a' + k%26)}, []int{0, 3, 200}[k%3])
 				// one server in five echoes the subprotocol in another letter case (a normalising proxy): whether the
@@ -404,6 +422,12 @@ func subDialer() mon.Sub {
 				hs = append(hs, held{what: "Dialer handshake result", get: func() string { return renderHS(hh) }, want: want})
 				if !recheck(c, hs, fmt.Sprintf("dial #%d", i)) {
 					return
+				}
+				if longLived {
+					if now := renderOptions(sharedOffer); now != sharedWant {
+						c.Fail("aliasing/Dialer.Extensions (the application's offer list)", fmt.Sprintf("after dial #%d the Extensions slice the application configured its Dialer with reads %q; it was %q", i, now, sharedWant), map[string]interface{}{"dials": i + 1})
+						return
+					}
 				}
 				if c.Rng.Intn(2) == 0 {
 					traffic(c, k)
